@@ -289,4 +289,9 @@ theorem c17_inside_pair_cache_visible :
     onBoundary ["xfunction 😀;".toList] ⟨0, 11, 0, 0, 0, 1, false⟩ = false :=
   ⟨rfl, by decide, by decide⟩
 
+/-- the window of the statement: the `take(N)` literal regenerated from sourceview.rs is 128 (re-checked on every
+run; changing the literal in the source breaks this obligation even though every other theorem is stated over
+`Consts.nameWindow`) -/
+theorem c17_window : Consts.nameWindow = 128 := by decide
+
 end SmVerif.C17
